@@ -1,5 +1,7 @@
-(* Property C18 (Spanner prober helpers): the statements, each discharged by a
-   lemma of Backoff.v / Latency.v / Flags.v, with their assumptions printed.
+(* Property C18 (Spanner prober helpers), for the code after the fixes of the
+   findings B1 (76e44a5), B2 (3d18018), B3 (30d7568): the statements, each
+   discharged by a lemma of Backoff.v / Latency.v / Flags.v, with their
+   assumptions printed.  No theorem needs a guard beyond the Go types any more.
    The theorems about float64 code (backoff, probe_interval) go through Flocq's
    Bmult_correct / Bdiv_correct / round_le and therefore depend on the real-
    number axioms of Coq's standard library; everything else is closed. *)
@@ -10,16 +12,17 @@ Import ListNotations.
 Open Scope Z_scope.
 
 (* ------------------------------------------------------------------ backoff *)
+(* base, max: any int64 values with base <= max; retries: any integer *)
 Theorem backoff_bounds :
   forall base mx retries : Z,
-  0 <= base -> base <= mx -> mx <= 2 ^ 53 ->
+  in_int64 base = true -> in_int64 mx = true -> base <= mx ->
   base <= backoff base mx retries <= mx.
 Proof. exact backoff_bounds_thm. Qed.
 Print Assumptions backoff_bounds.
 
 Theorem backoff_monotone :
   forall base mx r1 r2 : Z,
-  0 <= base -> base <= mx -> mx <= 2 ^ 53 -> r1 <= r2 ->
+  in_int64 base = true -> in_int64 mx = true -> base <= mx -> r1 <= r2 ->
   backoff base mx r1 <= backoff base mx r2.
 Proof. exact backoff_monotone_thm. Qed.
 Print Assumptions backoff_monotone.
@@ -33,7 +36,7 @@ Print Assumptions backoff_loop_faithful.
 
 Theorem backoff_monitor_on_model :
   forall base mx retries : Z,
-  backoff_guard base mx = true ->
+  in_int64 base = true -> in_int64 mx = true ->
   c18_backoff base mx retries (Some (backoff base mx retries))
               (Some (backoff base mx (wrap64 (retries + 1)))) = true.
 Proof. exact c18_backoff_on_model. Qed.
@@ -49,16 +52,16 @@ Theorem backoff_call_site :
 Proof. exact backoff_call_site_thm. Qed.
 Print Assumptions backoff_call_site.
 
-(* finding B1 *)
-Theorem backoff_bounds_refuted :
-  (let b := 2 ^ 53 + 1 in b <= b /\ backoff b b 0 < b) /\
-  (-2 <= 5 /\ backoff (-2) 5 1 = -3 /\ backoff (-2) 5 1 < -2).
-Proof. exact (conj backoff_bounds_refuted_rounding backoff_bounds_refuted_negative). Qed.
-Print Assumptions backoff_bounds_refuted.
-
-Theorem backoff_monotone_refuted : backoff (-2) 5 1 < backoff (-2) 5 0.
-Proof. exact backoff_monotone_refuted_negative. Qed.
-Print Assumptions backoff_monotone_refuted.
+(* the inputs of the former finding B1 *)
+Theorem backoff_former_B1 :
+  (let b := 2 ^ 53 + 1 in backoff b b 0 = b) /\
+  backoff (-2) 5 0 = -2 /\ backoff (-2) 5 1 = -2 /\
+  backoff max_int64 max_int64 0 = max_int64 /\
+  backoff (2 ^ 53 + 1) (2 ^ 53 + 3) 0 = 2 ^ 53 + 1 /\
+  backoff (2 ^ 53 + 1) (2 ^ 53 + 3) 1 = 2 ^ 53 + 3 /\
+  backoff 0 10 (2 ^ 62) = 0 /\ backoff min_int64 max_int64 (2 ^ 62) = min_int64.
+Proof. exact backoff_former_B1_inputs. Qed.
+Print Assumptions backoff_former_B1.
 
 (* ------------------------------------------------------------------ latency *)
 Theorem latency_total : forall h t, exists r, parse_latency h t = r.
@@ -108,31 +111,41 @@ Theorem latency_error_when_absent_or_malformed :
   (timing_values h t = [] -> parse_latency h t = LNotFound) /\
   (timing_values h t <> [] -> first_gfe (timing_values h t) = None -> parse_latency h t = LNoEntry) /\
   (forall txt, first_gfe (timing_values h t) = Some txt -> dec_spec txt = None ->
-               exists e, parse_latency h t = LParse e).
+               exists e, parse_latency h t = LParse e) /\
+  (forall txt ms, first_gfe (timing_values h t) = Some txt -> dec_spec txt = Some ms ->
+                  max_int64 / 1000000 < Z.abs ms -> parse_latency h t = LDurRange).
 Proof. exact latency_error_thm. Qed.
 Print Assumptions latency_error_when_absent_or_malformed.
 
+(* unconditional: ms milliseconds exactly, or an error when that is no Duration *)
 Theorem latency_value :
   forall h t txt ms,
   first_gfe (timing_values h t) = Some txt -> dec_spec txt = Some ms ->
-  Z.abs ms <= max_int64 / 1000000 ->
-  parse_latency h t = LOk (ms * 1000000).
+  parse_latency h t =
+  if Z.abs ms <=? max_int64 / 1000000 then LOk (ms * 1000000) else LDurRange.
 Proof. exact latency_value_thm. Qed.
 Print Assumptions latency_value.
 
+Theorem latency_no_wrap :
+  forall h t d, parse_latency h t = LOk d ->
+  exists txt ms, first_gfe (timing_values h t) = Some txt /\ dec_spec txt = Some ms /\
+                 d = ms * 1000000 /\ in_int64 d = true.
+Proof. exact latency_no_wrap_thm. Qed.
+Print Assumptions latency_no_wrap.
+
 Theorem latency_monitor_on_model :
-  forall h t, k_B2 h t = false -> c18_latency h t (OLres (parse_latency h t)) = true.
+  forall h t, c18_latency h t (OLres (parse_latency h t)) = true.
 Proof. exact c18_latency_on_model. Qed.
 Print Assumptions latency_monitor_on_model.
 
-(* finding B2 *)
-Theorem latency_value_beyond_guard_refuted :
+(* the input of the former finding B2 *)
+Theorem latency_former_B2 :
   dec_spec [57; 57; 57; 57; 57; 57; 57; 57; 57; 57; 57; 57; 57; 57; 57; 57]%N = Some 9999999999999999 /\
-  parse_latency [(server_timing_key, [b2_entry])] [] = LOk 1864712049422024128 /\
-  1864712049422024128 <> 9999999999999999 * 1000000 /\
-  1864712049422024128 / (3600 * 1000000000) = 517975.
-Proof. exact latency_value_refuted. Qed.
-Print Assumptions latency_value_beyond_guard_refuted.
+  parse_latency [(server_timing_key, [b2_entry])] [] = LDurRange /\
+  wrap64 (9999999999999999 * 1000000) = 1864712049422024128 /\
+  c18_latency [(server_timing_key, [b2_entry])] [] (OLres (LOk 1864712049422024128)) = false.
+Proof. exact latency_former_B2_input. Qed.
+Print Assumptions latency_former_B2.
 
 (* ------------------------------------------------------------------ flags *)
 Theorem flags_uri_segments :
@@ -152,26 +165,26 @@ Theorem flags_probe_type_parsable :
 Proof. exact flags_probe_type_parsable_thm. Qed.
 Print Assumptions flags_probe_type_parsable.
 
-(* guard: 0x1.dcd6500000001p-34 <= qps <= 1000 *)
+(* unconditional: every accepted flag set has a positive probe interval *)
 Theorem interval_positive :
-  forall q, interval_guard q = true -> 0 < probe_interval q.
-Proof. exact interval_positive_cor. Qed.
+  forall f, flags_accepted f = true ->
+  1000000 <= probe_interval (fl_qps f) <= below_two63.
+Proof. exact interval_positive_accepted. Qed.
 Print Assumptions interval_positive.
 
-Theorem interval_range :
+(* probeInterval on its own: the exact domain 0x1.dcd6500000001p-34 <= qps <= 1000 *)
+Theorem interval_range_tight :
   forall q, interval_guard q = true -> 1000000 <= probe_interval q <= below_two63.
 Proof. exact interval_positive_thm. Qed.
-Print Assumptions interval_range.
+Print Assumptions interval_range_tight.
 
-(* what validate_flags accepts is inside that guard or matches B3's trigger *)
-Theorem flags_interval_guard_or_B3 :
-  forall f, flags_accepted f = true -> k_B3 (fl_qps f) = false -> interval_guard (fl_qps f) = true.
-Proof. exact accepted_guard_or_B3. Qed.
-Print Assumptions flags_interval_guard_or_B3.
+Theorem flags_accepted_in_tight_guard :
+  forall f, flags_accepted f = true -> interval_guard (fl_qps f) = true.
+Proof. exact accepted_interval_guard. Qed.
+Print Assumptions flags_accepted_in_tight_guard.
 
 Theorem flags_monitor_on_model :
   forall f qb, fl_qps f = f64_of_bits qb ->
-  k_B3 (fl_qps f) = false ->
   let errs := validate_flags f in
   let o := FErrs (Z.of_nat (length errs)) (err_mask errs) in
   let gi := ginput_of f qb in
@@ -179,18 +192,21 @@ Theorem flags_monitor_on_model :
 Proof. exact c18_flags_on_model. Qed.
 Print Assumptions flags_monitor_on_model.
 
-(* finding B3: qps = NaN, 1e-10 and the float just below the guard are accepted *)
-Theorem interval_positive_refuted_unguarded :
-  (flags_accepted (b3_flags 9221120237041090560) = true /\
-   probe_interval (f64_of_bits 9221120237041090560) = min_int64) /\
-  (flags_accepted (b3_flags 4457293557087583675) = true /\
-   probe_interval (f64_of_bits 4457293557087583675) = min_int64) /\
-  (flags_accepted (b3_flags (qps_min_bits - 1)) = true /\
-   probe_interval (f64_of_bits (qps_min_bits - 1)) = min_int64 /\
-   probe_interval qps_min = below_two63) /\
-  min_int64 < 0.
-Proof. exact interval_positive_refuted. Qed.
-Print Assumptions interval_positive_refuted_unguarded.
+(* the inputs of the former finding B3 *)
+Theorem flags_former_B3 :
+  validate_flags (b3_flags 9221120237041090560) = [FEqps] /\
+  validate_flags (b3_flags 4457293557087583675) = [FEqps] /\
+  validate_flags (b3_flags (qps_min_bits - 1)) = [FEqps] /\
+  probe_interval (f64_of_bits 9221120237041090560) = min_int64 /\
+  probe_interval (f64_of_bits (qps_min_bits - 1)) = min_int64 /\
+  probe_interval qps_min = below_two63 /\
+  validate_flags (b3_flags f64_min_qps_bits) = [] /\
+  probe_interval (f64_of_bits f64_min_qps_bits) = 1000000000000000000 /\
+  validate_flags (b3_flags (f64_min_qps_bits - 1)) = [FEqps] /\
+  case_mon (b3_prefix_case 9221120237041090560) = false /\
+  case_mon (b3_prefix_case 4457293557087583675) = false.
+Proof. exact flags_former_B3_inputs. Qed.
+Print Assumptions flags_former_B3.
 
 (* the float constants written out in F64.v are the conversions of the Go constants *)
 Theorem float_constants_faithful :
@@ -198,7 +214,8 @@ Theorem float_constants_faithful :
   Flocq.IEEE754.BinarySingleNaN.B2SF f64_second = Flocq.IEEE754.BinarySingleNaN.B2SF (f64_of_int 1000000000) /\
   Flocq.IEEE754.BinarySingleNaN.B2SF f64_1_5 =
     Flocq.IEEE754.BinarySingleNaN.B2SF
-      (Flocq.IEEE754.BinarySingleNaN.binary_normalize 53 1024 _ _ Flocq.IEEE754.BinarySingleNaN.mode_NE 3 (-1) false).
+      (Flocq.IEEE754.BinarySingleNaN.binary_normalize 53 1024 _ _ Flocq.IEEE754.BinarySingleNaN.mode_NE 3 (-1) false) /\
+  Flocq.IEEE754.BinarySingleNaN.B2SF f64_min_qps = Flocq.IEEE754.BinarySingleNaN.B2SF (f64_of_bits f64_min_qps_bits).
 Proof. exact consts_are_conversions. Qed.
 Print Assumptions float_constants_faithful.
 
@@ -232,10 +249,16 @@ Example ex_monitor_rejects_decreasing :
   c18_backoff 200000000 5000000000 1 (Some 300000000) (Some 200000000) = false.
 Proof. vm_compute. reflexivity. Qed.
 
-Example ex_monitor_fails_on_B1 :
+(* the pre-fix outputs on the B1 witnesses are rejected by the monitor *)
+Example ex_monitor_rejects_prefix_B1 :
   let b := 2 ^ 53 + 1 in
-  c18_backoff b b 0 (Some (backoff b b 0)) (Some (backoff b b 1)) = false /\ k_B1 b b = true.
-Proof. vm_compute. split; reflexivity. Qed.
+  c18_backoff b b 0 (Some (2 ^ 53)) (Some (2 ^ 53)) = false /\
+  c18_backoff (-2) 5 0 (Some (-2)) (Some (-3)) = false /\
+  c18_backoff max_int64 max_int64 0 (Some min_int64) (Some min_int64) = false /\
+  (* ... and the outputs of the fixed code are accepted *)
+  c18_backoff b b 0 (Some (backoff b b 0)) (Some (backoff b b 1)) = true /\
+  c18_backoff (-2) 5 0 (Some (backoff (-2) 5 0)) (Some (backoff (-2) 5 1)) = true.
+Proof. vm_compute. repeat split; reflexivity. Qed.
 
 (* "gfet4t7; dur=250" in the header, "gfet4t7; dur=9" in the trailer *)
 Definition ex_h : md := [(server_timing_key, [[120]%N; gfe_prefix ++ [50; 53; 48]%N; gfe_prefix ++ [55]%N])].
@@ -255,9 +278,10 @@ Proof. vm_compute. reflexivity. Qed.
 Example ex_latency_monitor_rejects_panic : c18_latency ex_h ex_t OLpanic = false.
 Proof. vm_compute. reflexivity. Qed.
 
-Example ex_latency_monitor_fails_on_B2 :
+Example ex_latency_monitor_on_former_B2 :
   let h := [(server_timing_key, [b2_entry])] in
-  c18_latency h [] (OLres (parse_latency h [])) = false /\ k_B2 h [] = true.
+  c18_latency h [] (OLres (LOk 1864712049422024128)) = false /\
+  c18_latency h [] (OLres (parse_latency h [])) = true.
 Proof. vm_compute. split; reflexivity. Qed.
 
 (* an accepted flag set; and an injected segment makes the monitor fail *)
@@ -280,12 +304,12 @@ Example ex_flags_monitor_rejects_injection :
                      model_gobs (ginput_of bad 4607182418800017408)))) = false.
 Proof. vm_compute. split; reflexivity. Qed.
 
-Example ex_flags_monitor_fails_on_B3 :
+Example ex_flags_monitor_on_former_B3 :
   let f := b3_flags 9221120237041090560 in
-  case_mon (KFlags f 9221120237041090560 (FErrs 0 0)
-              (Some (ginput_of f 9221120237041090560, model_gobs (ginput_of f 9221120237041090560)))) = false
-  /\ k_B3 (fl_qps f) = true.
-Proof. vm_compute. split; reflexivity. Qed.
+  case_mon (b3_prefix_case 9221120237041090560) = false /\
+  case_mon (KFlags f 9221120237041090560 (FErrs 1 1) None) = true /\
+  case_acc (KFlags f 9221120237041090560 (FErrs 1 1) None) = None.
+Proof. vm_compute. repeat split; reflexivity. Qed.
 
 Example ex_payload_monitor :
   case_mon (KPayload 3 (Some ([97; 98; 99]%N, sha256 [97; 98; 99]%N, sha256 [97; 98; 99]%N))) = true /\
